@@ -3,6 +3,7 @@ package c05
 
 import (
 	"fmt"
+	"strings"
 	"testing"
 
 	geom "github.com/twpayne/go-geom"
@@ -106,9 +107,26 @@ func prop(c Case) error {
 	if err != nil {
 		return fmt.Errorf("wkt.Marshal: %v", err)
 	}
+	var keptTexts, keptCopies []string
 	for i := 0; i < 2; i++ {
-		if got, err := enc.Encode(t); err != nil || got != text {
+		got, err := enc.Encode(t)
+		if err != nil || got != text {
 			return fmt.Errorf("Encoder.Encode (call %d on an encoder value that is kept) = %q, %v; Marshal = %q", i+1, got, err, text)
+		}
+		keptTexts, keptCopies = append(keptTexts, got), append(keptCopies, strings.Clone(got))
+	}
+	// the texts returned are the caller's: they say the same after the same encoder has
+	// written other texts, shorter and longer ones (a caller collects the rows of a file)
+	for _, o := range []geom.T{geom.NewPointFlat(geom.XY, []float64{1, 2}), geom.NewPointEmpty(geom.XYZM), geom.NewLineStringFlat(geom.XYZ, make([]float64, 3*(len(text)/4+2)))} {
+		got, err := enc.Encode(o)
+		if err != nil {
+			return fmt.Errorf("Encoder.Encode of a plain %T: %v", o, err)
+		}
+		keptTexts, keptCopies = append(keptTexts, got), append(keptCopies, strings.Clone(got))
+	}
+	for i := range keptTexts {
+		if keptTexts[i] != keptCopies[i] {
+			return fmt.Errorf("a text returned by Encoder.Encode changed when the same encoder encoded other geometries afterwards: now %q, was %q", clip(keptTexts[i]), clip(keptCopies[i]))
 		}
 	}
 	back, err := wkt.Unmarshal(text)
@@ -249,7 +267,6 @@ func prop(c Case) error {
 	}
 	return same("Marshal of the same object after x and y were exchanged in place [text "+clip(text2)+"]", g2, rm2)
 }
-
 
 func clip(s string) string {
 	if len(s) > 400 {
